@@ -5,7 +5,7 @@ package main
 //
 //	c13 <mode> -seed S -n N -tier T -ops F -out F -meta F
 //
-// modes: all | enc | result | sizes | misc
+// modes: all | enc | result | sizes | misc | inst | judge (-extra ops=<file>)
 //
 // Every case runs the REAL code in-process, emits one op line (all inputs)
 // and the canonical result line, and evaluates the property directly on the
@@ -32,7 +32,8 @@ import (
 var seenFail = map[string]int{}
 var classFields = []string{"member_kind", "wide", "negative", "diff_only_above_64", "dirty_before", "provided", "class",
 	"tag", "elem_tag", "top_bit_set", "via", "victim_kind", "victim_provided", "changed_negative", "stage",
-	"compound_element", "parse_agrees_with_reference", "after_is_before_minus_2_pow_bits", "isizes_is_abs_bitlen", "kind"}
+	"compound_element", "parse_agrees_with_reference", "after_is_before_minus_2_pow_bits", "isizes_is_abs_bitlen", "kind",
+	"after_nested_struct", "width_from_path_index", "literal_class"}
 
 func failDedup(o *hxlib.Out, sig string, detail map[string]any) {
 	key := sig
@@ -1261,7 +1262,6 @@ func miscCase(o *hxlib.Out, r *hxlib.Rng, idx int) {
 	switch r.Intn(4) {
 	case 0: // IO.Split
 		n := r.Intn(6)
-		var io circuit.IO
 		var ns []int
 		total := 0
 		for i := 0; i < n; i++ {
@@ -1269,7 +1269,6 @@ func miscCase(o *hxlib.Out, r *hxlib.Rng, idx int) {
 			if r.Intn(5) == 0 {
 				w = 0
 			}
-			io = append(io, circuit.IOArg{Type: intInfo(false, w)})
 			ns = append(ns, w)
 			total += w
 		}
@@ -1277,30 +1276,8 @@ func miscCase(o *hxlib.Out, r *hxlib.Rng, idx int) {
 		if r.Intn(5) == 0 {
 			z.Neg(z)
 		}
-		var parts []*big.Int
-		res := ""
-		if p, _ := guard(func() { parts = io.Split(z) }); p {
-			res = "panic"
-		} else if len(parts) == 0 {
-			res = "-"
-		} else {
-			var ps []string
-			bit := 0
-			for k, x := range parts {
-				ps = append(ps, x.String())
-				// oracle: part k is bits [bit, bit+w) of z
-				exp := new(big.Int).Rsh(z, uint(bit))
-				exp.Mod(exp, pow2(ns[k]))
-				if exp.Cmp(x) != 0 {
-					failDedup(o, "c13-split-wrong", map[string]any{"case": idx, "index": k, "z": z.String(), "sizes": intsTok(ns)})
-				}
-				bit += ns[k]
-			}
-			res = strings.Join(ps, ",")
-		}
-		o.Op(fmt.Sprintf("c13 split %s %s", intsTok(ns), z.String()), res)
-		o.Count("op_split")
-	case 1: // InstantiateWithSizes
+		runSplit(o, idx, ns, z)
+	case 1: // InstantiateWithSizes on one leaf (type trees with struct members: instsCase in inst.go)
 		t := genAnyInfo(r, 1)
 		if r.Bool() {
 			t.IsConcrete = false
@@ -1312,30 +1289,7 @@ func miscCase(o *hxlib.Out, r *hxlib.Rng, idx int) {
 		if t.Type == types.TStruct || t.Type == types.TPtr {
 			t.Type = types.TUint
 		}
-		conc := 0
-		if t.Concrete() {
-			conc = 1
-		}
-		op := fmt.Sprintf("c13 inst %s %d %d", infoTok(t), conc, size)
-		var err error
-		res := ""
-		tt := t
-		if t.ElementType != nil {
-			e := *t.ElementType
-			tt.ElementType = &e
-		}
-		if p, _ := guard(func() { err = tt.InstantiateWithSizes([]int{size}) }); p {
-			res = "err panic"
-		} else if err != nil {
-			res = "err unsupported"
-		} else {
-			res = "ok " + infoTok(tt)
-			if !tt.IsConcrete {
-				failDedup(o, "c13-instantiate-not-concrete", map[string]any{"case": idx, "op": op})
-			}
-		}
-		o.Op(op, res)
-		o.Count("op_inst")
+		runInstLeaf(o, idx, t, size)
 	case 2: // types.Parse
 		s := typeStrings[r.Intn(len(typeStrings))]
 		want := ""
@@ -1516,15 +1470,27 @@ func corpus(o *hxlib.Out) {
 
 func main() {
 	if len(os.Args) < 2 {
-		fmt.Fprintln(os.Stderr, "usage: c13 all|enc|result|sizes|misc [flags]")
+		fmt.Fprintln(os.Stderr, "usage: c13 all|enc|result|sizes|misc|inst|judge [flags]")
 		os.Exit(2)
 	}
 	mode := os.Args[1]
 	cf, o := hxlib.ParseCommon("c13", os.Args[2:], nil)
 	defer o.Close()
+	// the compiler prints its diagnostics to os.Stdout; this harness writes to files only
+	if dn, err := os.OpenFile(os.DevNull, os.O_WRONLY, 0); err == nil {
+		os.Stdout = dn
+	}
+	if mode == "judge" {
+		// re-run the op lines of a file (-extra ops=<file>) through their oracles
+		judgeOps(o, strings.TrimPrefix(cf.Extra, "ops="))
+		return
+	}
 	rng := hxlib.NewRng(cf.Seed)
 	if mode == "all" && cf.Only < 0 {
 		corpus(o)
+	}
+	if mode == "inst" && cf.Only < 0 {
+		instCorpus(o)
 	}
 	for i := 0; i < cf.N; i++ {
 		r := rng.Fork()
@@ -1558,6 +1524,12 @@ func main() {
 				sizesCase(o, r, i)
 			case "misc":
 				miscCase(o, r, i)
+			case "inst":
+				if i%2 == 0 {
+					mainargCase(o, r, i)
+				} else {
+					instsCase(o, r, i)
+				}
 			default:
 				fmt.Fprintf(os.Stderr, "unknown mode %q\n", mode)
 				os.Exit(2)
